@@ -30,6 +30,11 @@ func init() {
 		"fmt.Sprintf":                        extFreshStr,
 		"strings.Contains":                   extStrPred("s.contains"),
 		"strings.Compare":                    extStrCompare,
+		"(reflect.Value).MapKeys":            extMapKeys,
+		"math.Abs":                           extFP1("fp.abs"),
+		"math.IsNaN":                         extFPPred("fp.isNaN"),
+		"math.IsInf":                         extIsInf,
+		"strings.LastIndex":                  extLastIndex,
 		"(time.Time).IsZero":                 extTimeFn("T.iszero", SBool),
 		"(time.Time).Unix":                   extTimeUnix,
 		"(time.Time).UnixNano":               extTimeUnixNano,
@@ -293,6 +298,10 @@ func extBufBytes(m *Machine, c *Config, call ssa.CallInstruction, args []Value) 
 	r := m.freshValue("bufbytes", sig.Results().At(0).Type()).(*SliceV)
 	m.sliceWF(c.st, r)
 	r.Nil = TFalse
+	if p, ok := args[0].(*PtrV); ok && p.Obj != nil && !p.Obj.Sym && m.cur != nil && p.Obj.ID > m.cur.entryObjN {
+		// the buffer was allocated by the verified function: so is the memory Bytes() returns
+		r.Obj.Sym = false
+	}
 	// the returned bytes are the flattening of the token stream
 	c.st.assume(Eq(app(SStrm, "streamOf", m.packTerm(c.st, r, SBytes)), cur))
 	m.provenance[r.Obj] = cur
@@ -376,4 +385,28 @@ func extIsInf(m *Machine, c *Config, call ssa.CallInstruction, args []Value) []e
 	pos := app(SBool, "fp.isPositive", f)
 	r := And(inf, Or(Eq(sg, zero), And(BVSgt(sg, zero), pos), And(BVSlt(sg, zero), Not(pos))))
 	return []extOutcome{{cond: TTrue, res: []Value{r}}}
+}
+
+// strings.LastIndex(s, sep): -1 or an index with 0 <= r <= len(s)-len(sep).
+func extLastIndex(m *Machine, c *Config, call ssa.CallInstruction, args []Value) []extOutcome {
+	s, sep := args[0].(Term), args[1].(Term)
+	r := app(SBV64, "s.lastindex", s, sep)
+	ls, lp := app(SBV64, "s.len", s), app(SBV64, "s.len", sep)
+	c.st.assume(Or(Eq(r, BVLitI(-1, 64)), And(BVSge(r, BVLitI(0, 64)), BVSle(r, ls), BVSle(BVAdd(r, lp), ls))))
+	return []extOutcome{{cond: TTrue, res: []Value{r}}}
+}
+
+// (reflect.Value).MapKeys: a slice whose i-th element is R.mapKey(v, i), of length R.mapLen(v)
+// (the order is a function of the map value: assumption A-MAPORDER).
+func extMapKeys(m *Machine, c *Config, call ssa.CallInstruction, args []Value) []extOutcome {
+	v := args[0].(Term)
+	c.st.abstract = true
+	c.st.trust("R:(reflect.Value).MapKeys (A-MAPORDER)")
+	sig := call.Common().Signature()
+	et := sig.Results().At(0).Type().Underlying().(*types.Slice).Elem()
+	obj := m.newObj("mapkeys", et, true, SRV)
+	c.st.mem[cellKey{obj, ""}] = app(ArraySort(SBV64, SRV), "R.mapKeys", v)
+	ln := app(SBV64, "R.mapLen", v)
+	c.st.assume(And(BVSge(ln, BVLitI(0, 64)), BVSle(ln, BVLitI(1<<40, 64))))
+	return []extOutcome{{cond: TTrue, res: []Value{&SliceV{Obj: obj, Off: BVLitI(0, 64), Len: ln, Cap: ln, Nil: TFalse}}}}
 }
